@@ -91,6 +91,7 @@ func runC15(p *Prog, r *Report) {
 	c15Omissions(p, r)
 	c15Supplier(p, r)
 	c15WriterTruncates(p, r)
+	c15ParseAsGiven(p, r, "D3-reference")
 }
 
 // c15WriterTruncates: the SBOM writers replace an existing output file: os.Create, or os.OpenFile
